@@ -2,7 +2,7 @@ SPECIFICATION TSpec
 CONSTANTS
   MaxRefs = 99
   Kinds = {"void", "copy", "move"}
-  Bodies = {"none", "destroyCtx", "dropOthers", "refinish"}
+  Bodies = {"none", "destroyCtx", "dropOthers", "refinish", "reThen"}
   MaxHist = 99
 INVARIANT Done
 CHECK_DEADLOCK FALSE
